@@ -1,9 +1,45 @@
 import WzVerif.Driver.Proto
+import WzVerif.Model.RoutingWire
 namespace Wz.Driver.C03
-open Wz Wz.Proto
+open Wz Wz.Proto Wz.Routing Wz.Routing.Wire
 
-/-- stub: no model commands yet -/
-def handle : Handler
+def outPartOn (target : Str) : Part → String
+  | .static c => "S:" ++ hexStr c
+  | .dyn pre kind post final suffixed w =>
+    "D:" ++ outBool final ++ ":" ++ outBool suffixed ++ ":" ++ outWeight w ++ ":" ++
+      (match matchDyn pre kind post suffixed target with
+       | some (v, sl) => hexStr v ++ "/" ++ outBool sl
+       | none => "~")
+
+/-- shared routing commands (also used by the C04 / C12 drivers) -/
+def routing : Handler
+  | "route.match", [m, a, path, method, qa, ws] =>
+    match mapArg m, adapterArg a, unhexStr path, optArg unhexStr method, qaArg qa, optArg boolArg ws with
+    | some (some m), some a, some path, some method, some qa, some ws =>
+      some (outOutcome (matchAdapter m a path method qa ws))
+    | some none, _, _, _, _, _ => some "UNSUPPORTED"
+    | _, _, _, _, _, _ => some badArgs
+  | "route.kernel", [m, target] =>
+    match mapArg m, unhexStr target with
+    | some (some m), some target =>
+      some (outList (fun r => ";".intercalate (r.parts.map (outPartOn target))) m.rules)
+    | some none, _ => some "UNSUPPORTED"
+    | _, _ => some badArgs
+  | "route.conv", [c, text] =>
+    match convArg c, unhexStr text with
+    | some c, some text =>
+      some (outBool (regexAccepts c text) ++ " " ++ outOpt outValue (toPython c text))
+    | _, _ => some badArgs
+  | "route.build", [m, a, ep, vals, method, fe, au] =>
+    match mapArg m, adapterArg a, unhexStr ep, valuesArg vals, optArg unhexStr method, boolArg fe, boolArg au with
+    | some (some m), some a, some ep, some vals, some method, some fe, some au =>
+      some (match adapterBuild m.cfg a m.rules ep vals method fe au with
+            | .ok url => "U " ++ hexStr url
+            | .error e => "EXC:" ++ e)
+    | some none, _, _, _, _, _, _ => some "UNSUPPORTED"
+    | _, _, _, _, _, _, _ => some badArgs
   | _, _ => none
+
+def handle : Handler := routing
 
 end Wz.Driver.C03
